@@ -262,6 +262,15 @@ theorem maxSize_measures_original :
     (∀ e ∈ GV.Gen.G1Rules.marshalReturnsStoredFirst, e.2 = true) := by
   decide
 
+/-- Re-assembly keeps the components' original bytes under a canonical one-byte header:
+    a non-minimal or indefinite envelope header shrinks to one byte, a non-canonical body
+    (here a map header in the one-byte-length form) is kept as it is. -/
+theorem reassemble_examples :
+    reassemble [0x83, 0xa0, 0xa0, 0xf6] = some [0x83, 0xa0, 0xa0, 0xf6] ∧
+    reassemble [0x98, 0x03, 0xb8, 0x00, 0xa0, 0xf6] = some [0x83, 0xb8, 0x00, 0xa0, 0xf6] ∧
+    reassemble [0x9f, 0xa0, 0xa0, 0xf5, 0xf6, 0xff] = some [0x84, 0xa0, 0xa0, 0xf5, 0xf6] ∧
+    reassemble [0x84, 0xa0] = none := by decide
+
 /-- Non-vacuity. -/
 example : feeVerdict { eraType := 4, bytes := [0x84, 0xa0, 0xa0, 0xf5, 0xf6], n := 4, fee := 200 } 44 24 = .pass := by decide
 example : envCount [0x84, 0xa0, 0xa0, 0xf5, 0xf6] = some 4 ∧ envCount [0x9f, 0xa0, 0xa0, 0xf5, 0xf6, 0xff] = some 4 ∧
